@@ -34,7 +34,33 @@ func (c *Ctx) buildVTA() {
 		edges++
 		return nil
 	})
-	c.vtaStats = fmt.Sprintf("VTA call graph over %d functions of the whole program (dependencies from source): %d call edges out of module code at %d sites", len(all), edges, len(c.vtaCallees))
+	// reachability from the daemons' main functions
+	c.vtaReach = map[string]bool{}
+	var roots []*callgraph.Node
+	for fn, n := range g.Nodes {
+		if fn != nil && fn.Name() == "main" && fn.Pkg != nil && strings.HasPrefix(fn.Pkg.Pkg.Path(), c.Mod+"cmd/") {
+			roots = append(roots, n)
+		}
+		if fn != nil && fn.Name() == "init" && fn.Pkg != nil && strings.HasPrefix(fn.Pkg.Pkg.Path(), c.Mod) {
+			roots = append(roots, n)
+		}
+	}
+	seen := map[*callgraph.Node]bool{}
+	for len(roots) > 0 {
+		n := roots[len(roots)-1]
+		roots = roots[:len(roots)-1]
+		if seen[n] {
+			continue
+		}
+		seen[n] = true
+		if n.Func != nil && n.Func.Pkg != nil && strings.HasPrefix(n.Func.Pkg.Pkg.Path(), c.Mod) {
+			c.vtaReach[fnName(n.Func)] = true
+		}
+		for _, e := range n.Out {
+			roots = append(roots, e.Callee)
+		}
+	}
+	c.vtaStats = fmt.Sprintf("VTA call graph over %d functions of the whole program (dependencies from source): %d call edges out of module code at %d sites; %d module functions reachable from the main packages", len(all), edges, len(c.vtaCallees), len(c.vtaReach))
 }
 
 const modPath = "tkestack.io/galaxy/"
@@ -89,6 +115,7 @@ type Ctx struct {
 
 	vtaCallees map[ssa.CallInstruction][]*ssa.Function // thorough tier only
 	vtaStats   string
+	vtaReach   map[string]bool // canonical names of module functions reachable from the two main packages
 }
 
 var loadPatterns = []string{"./pkg/...", "./cni/...", "./cmd/...", "./tools/..."}
